@@ -4,6 +4,7 @@ package main
 // C01 C02 C03 C04 C06 C07 C12 C14 C20.
 
 import (
+	"encoding/binary"
 	"bytes"
 	"crypto/md5"
 	"crypto/sha256"
@@ -66,6 +67,9 @@ func (s sqCase) shape() string {
 // nonCanonicalOK: whether randSquareCase may re-encode blob transactions non-canonically (off for C02,
 // which compares Deconstruct's canonical re-encoding with the input bytes)
 var nonCanonicalOK = true
+
+// forceManyBlobs: when set, randSquareCase always produces its "many small blobs" family
+var forceManyBlobs = false
 
 // nonCanonical re-encodes the top-level fields of a marshalled BlobTx: type id first or in the middle,
 // an unknown varint / bytes field inserted, the type id duplicated.
@@ -187,7 +191,7 @@ func randSquareCase(c *Ctx, r *Rng, ordered, tight bool) sqCase {
 		max = 8 + 8*r.Intn(2)
 	}
 	txs := randTxList(r, nNormal, nBlob, maxBlob, !ordered, nss)
-	if r.Intn(7) == 0 {
+	if r.Intn(7) == 0 || forceManyBlobs {
 		// many small blobs: 13-60 blobs over 2-3 interleaved namespaces, several per transaction
 		// (sorting more than 12 elements; equal namespaces within and across transactions)
 		max = pick(r, []int{16, 32})
@@ -375,6 +379,11 @@ func genC01(c *Ctx) {
 		if i >= 30 && i < 36 {
 			if bf := brimFullCases(c, r); i-30 < len(bf) {
 				s = bf[i-30]
+			}
+		}
+		if i >= 40 && i < 44 {
+			if hi := hugeInnerCases(c, r); i-40 < len(hi) {
+				s = hi[i-40]
 			}
 		}
 		if i%9 == 4 {
@@ -703,6 +712,9 @@ func genC04(c *Ctx) {
 			if i%12 == 5 {
 				liveBuilderHistory(c, c.rng, manyBlobLiveCase(c.rng), "Builder (live, more than 64 blobs)")
 			}
+			if i%12 == 7 {
+				sharedBlobObjectHistory(c, c.rng)
+			}
 		}
 	}()
 	c.rule = "constructed squares over ordered lists with several blobs (equal and different namespaces, versions 0/1, boundary lengths); every (blob tx, blob): recorded index vs verbatim shares, alignment, disjointness and order, BlobShareRange incl. out-of-range indexes; non-trivial = distinct case with >= 2 blobs"
@@ -817,6 +829,8 @@ func genC06(c *Ctx) {
 	list = append(list, fullSquareExactFitCases(c, r)...)
 	list = append(list, sameNsPairCases(c, r)...)
 	list = append(list, refusedLowNamespaceCases(c, r)...)
+	list = append(list, hugeInnerCases(c, r)...)
+	list = append(list, rowPaddingSweep(c, r)...)
 	nModel := len(list)
 	// Go side only: units on varint-width boundaries aligned to share boundaries, many-blob PFBs, oversized blobs
 	list = append(list, boundaryUnitCases(c, r)...)
@@ -935,6 +949,8 @@ func genC07(c *Ctx) {
 	list = append(list, bigSquareCases(c, r, false)...)
 	list = append(list, emptyInnerSweep(c, r)...)
 	list = append(list, hugeMaxCases(c, r)...)
+	list = append(list, hugeInnerCases(c, r)...)
+	list = append(list, rowPaddingSweep(c, r)...)
 	list = append(list, refusedLowNamespaceCases(c, r)...)
 	list = append(list, sameNsPairCases(c, r)...)
 	for ci, s := range list {
@@ -1466,6 +1482,75 @@ func refusedLowNamespaceCases(c *Ctx, r *Rng) []sqCase {
 	return out
 }
 
+// hugeInnerCases: between kept transactions, a blob transaction whose INNER transaction alone is larger than all the
+// compact shares of the largest square (refused whatever its blobs), after an accepted blob tx and before
+// transactions that still fit - and the same with a huge ordinary transaction.
+func hugeInnerCases(c *Ctx, r *Rng) []sqCase {
+	var out []sqCase
+	nss := blobNamespaces(r, 2)
+	mkSmall := func(in int) genTx {
+		b := randBlob(r, nss, 100)
+		b.data = r.Bytes(1 + r.Intn(300))
+		bl := []genBlob{b}
+		return genTx{raw: blobTxWithInner(r.Bytes(in), bl), blobs: bl}
+	}
+	for _, max := range []int{2, 4} {
+		for v := 0; v < 2; v++ {
+			huge := mkSmall(max*max*478 + 400 + r.Intn(400))
+			l := []genTx{mkSmall(60 + r.Intn(300)), huge, {raw: r.Bytes(100 + r.Intn(300))}}
+			if v == 1 {
+				l = []genTx{{raw: r.Bytes(50)}, mkSmall(200), {raw: r.Bytes(max*max*478 + 500)}, huge, mkSmall(100)}
+			}
+			out = append(out, sqCase{txs: l, max: max, thr: 64})
+			c.count("inner_tx_larger_than_the_square")
+		}
+	}
+	return out
+}
+
+// rowPaddingSweep: reserved padding of a whole row in front of the first blob - the wrapped PFB crosses a share
+// boundary by its worst-case size only (inner length swept over 440..480), ordinary transactions of 1..3 shares in
+// front, and a first blob whose subtree width equals the square side (threshold 1, 5 shares in a 4x4 square).
+func rowPaddingSweep(c *Ctx, r *Rng) []sqCase {
+	var out []sqCase
+	nss := blobNamespaces(r, 1)
+	for k := 0; k < 3*41; k++ {
+		inner := 440 + k%41
+		lead := 1 + k/41
+		b := genBlob{ns: nss[0], data: r.Bytes(2000)}
+		bl := []genBlob{b}
+		l := []genTx{{raw: r.Bytes(474 + 478*(lead-1) - 10 - r.Intn(300))}, {raw: blobTxWithInner(r.Bytes(inner), bl), blobs: bl}}
+		out = append(out, sqCase{txs: l, max: 4, thr: 1})
+	}
+	c.count("row_of_reserved_padding_sweep")
+	return out
+}
+
+// manyIndexedBlobsSweep: a blob transaction with one 200-share blob followed by 100 one-share blobs (fewer than
+// 128 indexes whose packed encoding is longer than 127 bytes: count and byte length have different prefix
+// widths), then two small blob transactions; the first inner transaction swept over 40 lengths around every
+// residue class, so that a one-byte error in a recomputed wrapper size moves a range across a share boundary.
+func manyIndexedBlobsSweep(c *Ctx, r *Rng) []sqCase {
+	var out []sqCase
+	ns := blobNamespaces(r, 1)[0]
+	var bl []genBlob
+	bl = append(bl, genBlob{ns: ns, data: r.Bytes(478 + 482*199)})
+	for i := 0; i < 100; i++ {
+		bl = append(bl, genBlob{ns: ns, data: r.Bytes(1 + r.Intn(400))})
+	}
+	small := func() genTx {
+		b := genBlob{ns: ns, data: r.Bytes(1 + r.Intn(300))}
+		return genTx{raw: blobTxWithInner(r.Bytes(50+r.Intn(200)), []genBlob{b}), blobs: []genBlob{b}}
+	}
+	s1, s2 := small(), small()
+	for L := 1; L <= 520; L += 13 {
+		l := []genTx{{raw: blobTxWithInner(r.Bytes(L+r.Intn(13)), bl), blobs: bl}, s1, s2}
+		out = append(out, sqCase{txs: l, max: 32, thr: 64})
+	}
+	c.count("many_indexed_blobs_sweep")
+	return out
+}
+
 // duplicateTxCases: lists in which the same ordinary transaction (byte-identical) occurs several times with
 // share boundaries in between, and the same blob transaction twice - a range looked up by content instead of
 // by position returns the range of another occurrence.
@@ -1639,6 +1724,9 @@ func genC12(c *Ctx) {
 			if i%12 == 5 {
 				liveBuilderHistory(c, c.rng, manyBlobLiveCase(c.rng), "Builder (live, more than 64 blobs)")
 			}
+			if i%12 == 7 {
+				sharedBlobObjectHistory(c, c.rng)
+			}
 		}
 	}()
 	c.rule = "ordered lists (as kept by greedy builds) with tx sizes ending exactly on share ends and PFBs one varint byte shorter than the worst case; TxShareRange for every index -2..len+1 vs the set of shares holding a byte of the unit (recomputed from stream offsets over the real wrapped PFBs), ParseTxs of exactly that range, splitter ShareRanges; non-trivial = distinct (case, index) spanning or starting after the first share"
@@ -1646,6 +1734,7 @@ func genC12(c *Ctx) {
 	special := pfbAtBoundaryCases(c, r)
 	special = append(special, duplicateTxCases(c, r)...)
 	special = append(special, manyTinyTxCases(c, r)...)
+	special = append(special, manyIndexedBlobsSweep(c, r)...)
 	for i := 0; i < 150*c.scale+len(special); i++ {
 		var s sqCase
 		if i < len(special) {
@@ -2026,6 +2115,10 @@ func genC20(c *Ctx) {
 			raws[j][30+r.Intn(400)] = byte(r.Intn(256))
 			// sequence starts and continuation shares, versions 0/1: a run may begin with a continuation share
 			raws[j][29] = byte(r.Intn(4))
+			if raws[j][29]&1 == 1 && r.Bool(40) {
+				// a start share that DECLARES a sequence of 1..6 shares, whatever really follows it in the list
+				binary.BigEndian.PutUint32(raws[j][30:34], uint32(1+482*r.Intn(6)+r.Intn(400)))
+			}
 		}
 		// queries: present, gaps (neighbours +-1), below, above
 		var queries [][]byte
